@@ -472,7 +472,7 @@ namespace vt {
         std::uint64_t seed = 1;
         long total_events = 0, total_chains = 0, total_tasks = 0;
         int mon_hits = 0;
-        double timeout_s = 40.0;
+        double timeout_s = 25.0;
 
         thread_pool_base* pool() { return get_self_or_default_pool(); }
 
